@@ -86,3 +86,56 @@ Section Agent.
     let '(reqs, out) := follow resps method uri uri hs 0 in
     (mkRequest method uri hs :: reqs, out).
 End Agent.
+
+(** * several redirect chains in flight through ONE agent, answered in any interleaving.
+
+    The agent keeps no per-request state of its own: everything a chain needs (method, original URI,
+    current URI, headers, count) travels in the callback arguments of its own Deferred.  [cstate] is
+    that per-chain state plus what the chain has issued so far; answering the pending request of
+    chain [i] touches chain [i] only. *)
+Record cstate := mkC {
+  c_left : list response;      (* what the wrapped agent will answer to this chain, in order *)
+  c_method : bytes;
+  c_orig : bytes;
+  c_cur : bytes;
+  c_hs : option headers;
+  c_count : N;
+  c_reqs : list request;       (* requests issued so far, in order *)
+  c_out : outcome }.
+
+Definition is_waiting (o : outcome) : bool := match o with Waiting => true | _ => false end.
+
+Definition c_start (method uri : bytes) (hs : option headers) (resps : list response) : cstate :=
+  mkC resps method uri uri hs 0 [mkRequest method uri hs] Waiting.
+
+Section Interleaved.
+  Variable cfg : config.
+
+  (** the wrapped agent answers this chain's pending request *)
+  Definition advance (st : cstate) : cstate :=
+    if negb (is_waiting (c_out st)) then st
+    else match c_left st with
+         | [] => st
+         | r :: rest =>
+             let '(reqs, out) := follow cfg false [r] (c_method st) (c_orig st) (c_cur st) (c_hs st) (c_count st) in
+             match reqs with
+             | q :: _ => mkC rest (q_method q) (c_orig st) (q_uri q) (q_headers q) (c_count st + 1)
+                             (c_reqs st ++ [q]) out
+             | [] => mkC rest (c_method st) (c_orig st) (c_cur st) (c_hs st) (c_count st) (c_reqs st) out
+             end
+         end.
+
+  Fixpoint update_nth {A} (i : nat) (f : A -> A) (l : list A) : list A :=
+    match l, i with
+    | [], _ => []
+    | x :: r, O => f x :: r
+    | x :: r, S i' => x :: update_nth i' f r
+    end.
+
+  (** [sched] = which chain is answered next, step after step *)
+  Fixpoint sched_run (sched : list nat) (sts : list cstate) : list cstate :=
+    match sched with
+    | [] => sts
+    | i :: r => sched_run r (update_nth i advance sts)
+    end.
+End Interleaved.
